@@ -76,6 +76,9 @@ theorem rebuildAP_setBefore {e : Expr} (he : e.before = []) {bf : List Trivia} (
   | un o e g bt b a =>
     simp only [Expr.before] at he; subst he
     simp [Expr.setBefore, Expr.rebuildAP, addTriviaP, fmtP_nil]
+  | bin o l r x y b a =>
+    simp only [Expr.before] at he; subst he
+    simp [Expr.setBefore, Expr.rebuildAP, addTriviaP, fmtP_nil]
   | asrt c bd x y b a =>
     simp only [Expr.before] at he; subst he
     have hsp : ∀ (bf' a' : List Trivia) (core : List FP), addTriviaP bf' a' core i inl = fmtP bf' i ++ addTriviaP [] a' core i inl := by
@@ -151,6 +154,9 @@ theorem rebuildAP_addAfter_emptyLine {e : Expr} (he : e.effAfter false = []) (hn
   | un o e g bt b a =>
     simp only [Expr.effAfter, Bool.false_eq_true, if_false] at he; subst he
     simp [Expr.addAfter, Expr.setAfter, Expr.after, Expr.rebuildAP, addTriviaP, trailP_emptyLine, trailP_nil]
+  | bin o l r x y b a =>
+    simp only [Expr.effAfter, Bool.false_eq_true, if_false] at he; subst he
+    simp [Expr.addAfter, Expr.setAfter, Expr.after, Expr.rebuildAP, addTriviaP, trailP_emptyLine, trailP_nil]
   | asrt c bd x y b a => cases hna
 
 def spacesIf (inl : Bool) (i : Nat) : Text := if inl then [] else spaces i
@@ -179,6 +185,7 @@ theorem cf_parse_notAsrt {c : Cst} {e : Expr} (hcf : c.cf = true) (hp : c.parse 
   | selOr e c1 g1 gd ats c2 g2 g3 d => simp [Cst.cf] at hcf
   | lam n c1 g1 c2 g2 b => simp [Cst.cf] at hcf
   | un op c g e => simp [Cst.cf] at hcf
+  | bin l c1 g1 op c2 g2 r => simp [Cst.cf] at hcf
 
 theorem addAfter_nil (e : Expr) : e.addAfter [] = e := by
   cases e <;> simp [Expr.addAfter, Expr.setAfter, Expr.after]
@@ -379,6 +386,10 @@ theorem flatten_solid : ∀ (c : Cst), c.wf = true → solidT c.flatten
     simp only [Cst.wf, Bool.and_eq_true] at h
     simp only [Cst.flatten]
     exact solidT_append_left' _ (flatten_solid e h.2)
+  | .bin l c1 g1 op c2 g2 r, h => by
+    simp only [Cst.wf, Bool.and_eq_true] at h
+    simp only [Cst.flatten]
+    exact solidT_append_left' _ (flatten_solid r h.2)
 
 /-- leaf texts and the normalised containers are non-empty and do not end in a line break -/
 theorem norm_flatten_solid : ∀ (c : Cst) (i : Nat), c.wf = true → solidT (c.norm i).flatten
@@ -413,6 +424,7 @@ theorem norm_flatten_solid : ∀ (c : Cst) (i : Nat), c.wf = true → solidT (c.
   | .selOr e c1 g1 gd attrs c2 g2 g3 d, i, h => by simp only [Cst.norm]; exact flatten_solid _ h
   | .lam n c1 g1 c2 g2 b, i, h => by simp only [Cst.norm]; exact flatten_solid _ h
   | .un op c g e, i, h => by simp only [Cst.norm]; exact flatten_solid _ h
+  | .bin l c1 g1 op c2 g2 r, i, h => by simp only [Cst.norm]; exact flatten_solid _ h
 
 /-- what the tree normaliser writes between `=` and the value, and the value -/
 def valueNorm (g2 : Text) (v : Cst) (j : Nat) : Text :=
